@@ -219,9 +219,25 @@ func c17HeadersOnce(c *core.Ctx) {
 		}
 		c.Check(R, k+"/headers()-once-merged-before-write", u.Pos(), ok, "each 200 response gets its headers event exactly once")
 	}
-	_, l := headersListener(c, R)
+	hs0, l := headersListener(c, R)
 	if l == nil {
 		return
+	}
+	// listener-before-first-response: the headers listener is attached before the transport can answer
+	// (OnRequest hands it the handshake request; NewSocket sends the open packet from another goroutine)
+	if hs0 != nil {
+		hg := hs0.Graph()
+		var reg *Ev
+		for _, e := range filterEv(events(c, hs0), "on", "transport", "headers") {
+			reg = e
+		}
+		okBefore := reg != nil
+		for _, cl := range hs0.Calls() {
+			if reg != nil && (cl.Name == "OnRequest" || cl.Key == newSocket) && !hg.Dominates(reg.Loc, cl.Loc) {
+				okBefore = false
+			}
+		}
+		c.Check(R, bsHandshake+"/On(headers)≺OnRequest,NewSocket", hs0.Pos(), okBefore, "the cookie / initial_headers listener is in place before the first response of the session can be written")
 	}
 	g := l.Graph()
 	hd := filterEv(events(c, l), "emit", "server", "headers")
